@@ -30,9 +30,21 @@ def gen_case(r):
     prog = l3.gen_program(r, nsess, r.randint(5, 16), PROFILE)
     # session 0 examines; re-examine after it closes
     out = []
+    # now and then the connection has a read-write past: its first selection is read-write, everything after it read-only
+    # (nothing of the earlier selection may carry over into the read-only one)
+    rw_past = r.random() < 0.4
+    seen_first = False
     for op in prog:
         op = list(op)
         if op[0] == 'select' and op[1] == 0:
+            if rw_past and not seen_first:
+                seen_first = True
+                op[3] = False
+                out.append(op)
+                if r.random() < 0.5:
+                    out.append(['close', 0])
+                out.append(['select', 0, r.choice([0, 0, op[2] if op[2] < 3 else 0]), True])
+                continue
             op[3] = True
         out.append(op)
         if op[0] == 'close' and op[1] == 0 and r.random() < 0.8:
